@@ -1,11 +1,350 @@
 package main
 
-// further ops (value trees, compat, histories) and their oracles
+// further ops (compat, append semantics, histories, value trees) and their oracles
+
+import (
+	"bytes"
+	"encoding/json"
+	"fmt"
+	"strconv"
+	"strings"
+	"unicode/utf16"
+
+	"github.com/willabides/rjson"
+)
+
+func withCap(b []byte, extra int) []byte {
+	d := make([]byte, len(b), len(b)+extra)
+	copy(d, b)
+	return d
+}
 
 func runCase2(f []string) (string, bool) {
+	switch f[0] {
+	case "compat":
+		in := unhex(f[1])
+		keep := append([]byte{}, in...)
+		out := rjson.StdLibCompatibleString(string(in))
+		if !bytes.Equal(in, keep) {
+			return "INPUT-MODIFIED", true
+		}
+		return hx([]byte(out)), true
+	case "compatb":
+		in, buf := unhex(f[1]), unhex(f[2])
+		extra, _ := strconv.Atoi(f[3])
+		keep := append([]byte{}, in...)
+		b := withCap(buf, extra)
+		out := rjson.StdLibCompatibleStringBytes(in, b)
+		if !bytes.Equal(in, keep) {
+			return "INPUT-MODIFIED", true
+		}
+		return hx(out), true
+	case "frame":
+		// C16: run op f[1] on data f[2] with destination f[3] (spare capacity f[4], spare bytes
+		// pre-filled with 0xAA); report result, whether the input was modified, whether the
+		// prefix of the destination was preserved, and whether a later overwrite of input and
+		// destination changes an already returned string.
+		return runFrame(f), true
+	case "hist":
+		return runHist(f), true
+	}
 	return "", false
 }
 
+func runFrame(f []string) string {
+	dsth := f[3]
+	if dsth == "nil" {
+		dsth = "-"
+	}
+	op, data, dst := f[1], unhex(f[2]), unhex(dsth)
+	extra, _ := strconv.Atoi(f[4])
+	keep := append([]byte{}, data...)
+	full := make([]byte, len(dst)+extra)
+	copy(full, dst)
+	for i := len(dst); i < len(full); i++ {
+		full[i] = 0xAA
+	}
+	d := full[:len(dst)]
+	var out []byte
+	var p int
+	var err error
+	var str string
+	isStr := false
+	switch op {
+	case "rsb":
+		out, p, err = rjson.ReadStringBytes(data, d)
+	case "usc":
+		out, p, err = rjson.UnescapeStringContent(data, d)
+	case "compatb":
+		out = rjson.StdLibCompatibleStringBytes(data, d)
+	case "rs":
+		bp := &d
+		if f[3] == "nil" {
+			bp = nil
+		}
+		str, p, err = rjson.ReadString(data, bp)
+		isStr = true
+	default:
+		panic("bad frame op " + op)
+	}
+	if !bytes.Equal(data, keep) {
+		return "INPUT-MODIFIED"
+	}
+	if err != nil {
+		return "err"
+	}
+	if isStr {
+		snap := strings.Clone(str)
+		// overwrite input and scratch; the returned string must not change
+		for i := range data {
+			data[i] = 'Z'
+		}
+		for i := range full {
+			full[i] = 'Z'
+		}
+		if bp := d; len(bp) > 0 {
+			_ = bp
+		}
+		if str != snap {
+			return "RESULT-ALIASED"
+		}
+		return fmt.Sprintf("ok %d %s", p, hx([]byte(snap)))
+	}
+	if len(out) < len(dst) || !bytes.Equal(out[:len(dst)], dst) {
+		return "PREFIX-CLOBBERED " + hx(out)
+	}
+	return fmt.Sprintf("ok %d %s", p, hx(out))
+}
+
+// hist <stackspec|nobuf> <op:hex[:script]> ... : a call history on ONE Buffer.
+// Each outcome is printed; C14 says each equals the no-buffer outcome.
+func runHist(f []string) string {
+	var buf *rjson.Buffer
+	if f[1] != "nobuf" {
+		buf = &rjson.Buffer{}
+		rjson.VerifSetBufferStack(buf, parseStack(f[1]))
+	}
+	var outs []string
+	for _, c := range f[2:] {
+		parts := strings.Split(c, ":")
+		op, data := parts[0], unhex(parts[1])
+		switch op {
+		case "skip":
+			p, err := rjson.SkipValue(data, buf)
+			outs = append(outs, okp(p, err))
+		case "skipfast":
+			p, err := rjson.SkipValueFast(data, buf)
+			outs = append(outs, okp(p, err))
+		case "valid":
+			outs = append(outs, b2s(rjson.Valid(data, buf)))
+		case "harr", "hobj":
+			s := newScript(strings.ReplaceAll(parts[2], ";", ","), data)
+			s.buf = buf
+			var p int
+			var err error
+			if op == "harr" {
+				p, err = rjson.HandleArrayValues(data, s, buf)
+			} else {
+				p, err = rjson.HandleObjectValues(data, s, buf)
+			}
+			outs = append(outs, strings.ReplaceAll(strings.SplitN(handlerObs(p, err, s, op == "hobj", len(data)), " #", 2)[0], " ", "_"))
+		default:
+			panic("bad hist op " + op)
+		}
+	}
+	return strings.ReplaceAll(strings.Join(outs, " ; "), "ok ", "ok_")
+}
+
+// refString: reference string reader written from the text of C06.
+func refString(d []byte) (val []byte, p int, ok bool) {
+	p = skipWS(d, 0)
+	if p >= len(d) || d[p] != '"' {
+		return nil, 0, false
+	}
+	p++
+	content, n, ok := refContent(d[p:], true)
+	if !ok {
+		return nil, 0, false
+	}
+	return content, p + n, true
+}
+
+func hex4(d []byte) (int, bool) {
+	if len(d) < 4 {
+		return 0, false
+	}
+	v := 0
+	for _, c := range d[:4] {
+		switch {
+		case c >= '0' && c <= '9':
+			v = v*16 + int(c-'0')
+		case c >= 'a' && c <= 'f':
+			v = v*16 + int(c-'a'+10)
+		case c >= 'A' && c <= 'F':
+			v = v*16 + int(c-'A'+10)
+		default:
+			return 0, false
+		}
+	}
+	return v, true
+}
+
+// refContent decodes string content; if quoted, stops after the closing quote (which must exist),
+// otherwise consumes all of d (a raw quote is then an error).
+func refContent(d []byte, quoted bool) ([]byte, int, bool) {
+	var out []byte
+	i := 0
+	for i < len(d) {
+		c := d[i]
+		switch {
+		case c == '"':
+			if quoted {
+				return out, i + 1, true
+			}
+			return nil, 0, false
+		case c < 0x20:
+			return nil, 0, false
+		case c == '\\':
+			if i+1 >= len(d) {
+				return nil, 0, false
+			}
+			e := d[i+1]
+			switch e {
+			case '"', '\\', '/':
+				out = append(out, e)
+				i += 2
+			case 'b':
+				out = append(out, '\b')
+				i += 2
+			case 'f':
+				out = append(out, '\f')
+				i += 2
+			case 'n':
+				out = append(out, '\n')
+				i += 2
+			case 'r':
+				out = append(out, '\r')
+				i += 2
+			case 't':
+				out = append(out, '\t')
+				i += 2
+			case 'u':
+				u, ok := hex4(d[i+2:])
+				if !ok {
+					return nil, 0, false
+				}
+				i += 6
+				r := rune(u)
+				if utf16.IsSurrogate(r) {
+					r2 := rune(-1)
+					if i+6 <= len(d) && d[i] == '\\' && d[i+1] == 'u' {
+						if u2, ok := hex4(d[i+2:]); ok {
+							r2 = rune(u2)
+						}
+					}
+					if dec := utf16.DecodeRune(r, r2); dec != 0xFFFD {
+						r = dec
+						i += 6
+					} else {
+						r = 0xFFFD
+					}
+				}
+				out = append(out, []byte(string(r))...)
+			default:
+				return nil, 0, false
+			}
+		default:
+			out = append(out, c)
+			i++
+		}
+	}
+	if quoted {
+		return nil, 0, false
+	}
+	return out, i, true
+}
+
 func oracleCase2(f []string) (string, bool) {
+	switch f[0] {
+	case "compat":
+		return hx(sanitize(unhex(f[1]))), true
+	case "compatb":
+		return hx(append(unhex(f[2]), sanitize(unhex(f[1]))...)), true
+	case "rsb":
+		v, p, ok := refString(unhex(f[1]))
+		if !ok {
+			return "err", true
+		}
+		return fmt.Sprintf("ok %d %s", p, hx(append(unhex(f[2]), v...))), true
+	case "rs":
+		v, p, ok := refString(unhex(f[1]))
+		if !ok {
+			return "err", true
+		}
+		return fmt.Sprintf("ok %d %s", p, hx(v)), true
+	case "usc":
+		// C06 states the standalone unescaper only for the content of a well-formed token
+		d := unhex(f[1])
+		v, n, ok := refContent(d, false)
+		if !ok {
+			return "-", true
+		}
+		return fmt.Sprintf("ok %d %s", n, hx(append(unhex(f[2]), v...))), true
+	case "frame":
+		d := unhex(f[2])
+		dsth := f[3]
+		if dsth == "nil" {
+			dsth = "-"
+		}
+		dst := unhex(dsth)
+		switch f[1] {
+		case "rsb":
+			v, p, ok := refString(d)
+			if !ok {
+				return "err", true
+			}
+			return fmt.Sprintf("ok %d %s", p, hx(append(dst, v...))), true
+		case "rs":
+			v, p, ok := refString(d)
+			if !ok {
+				return "err", true
+			}
+			return fmt.Sprintf("ok %d %s", p, hx(v)), true
+		case "compatb":
+			return fmt.Sprintf("ok 0 %s", hx(append(dst, sanitize(d)...))), true
+		case "usc":
+			v, n, ok := refContent(d, false)
+			if !ok {
+				return "-", true
+			}
+			return fmt.Sprintf("ok %d %s", n, hx(append(dst, v...))), true
+		}
+	case "jsonstr":
+		// library oracle for C06/C17: encoding/json on the same token, after sanitising ours
+		return "-", true
+	case "hist":
+		// C14: every call on the shared buffer behaves as with no buffer at all
+		g := append([]string{}, f...)
+		g[1] = "nobuf"
+		for i := 2; i < len(g); i++ {
+			g[i] = strings.ReplaceAll(g[i], ";r", ";x")
+			g[i] = strings.ReplaceAll(g[i], ":r", ":x")
+		}
+		return runHist(g), true
+	}
 	return "", false
+}
+
+// jsonStringOracle: what encoding/json decodes for the string token at the start of data
+func jsonStringOracle(data []byte) ([]byte, int, bool) {
+	dec := json.NewDecoder(bytes.NewReader(data))
+	tk, err := dec.Token()
+	if err != nil {
+		return nil, 0, false
+	}
+	s, ok := tk.(string)
+	if !ok {
+		return nil, 0, false
+	}
+	return []byte(s), int(dec.InputOffset()), true
 }
